@@ -3,7 +3,7 @@ import session
 
 ID = 'C19'
 PROPERTY_FILE = 'Autobean/Properties/C19.lean'
-LEAN_TARGETS = ['Autobean.Properties.C19']
+LEAN_TARGETS = ['Autobean.Properties.C19', 'Autobean.Obligations.Refusals']
 RULE = ('edit histories with a malformed stream mixed in (attached nodes as values at any batch position, out-of-range '
         'indices, missing keys, size-mismatched slices, unparsable raw texts, attached arithmetic operands, comments that '
         'cannot be claimed, illegal cost combinations); whenever the real call raises, printed text, tree structure and '
